@@ -34,7 +34,11 @@ type serverConn struct {
 	parser   parser.Parser
 
 	closeOnce sync.Once
-	debug     Debugger
+	// Set once onClose has run; a socket admitted afterwards must be closed by connect.
+	closed      bool
+	closeReason Reason
+	closedMu    sync.Mutex
+	debug       Debugger
 }
 
 func newServerConn(
@@ -168,6 +172,16 @@ func (c *serverConn) connect(header *parser.PacketHeader, decode parser.Decode) 
 	vhook.Yield("conn.connect.beforeSet", c)
 	c.sockets.set(socket)
 	c.nsps.set(nsp)
+
+	// The connection may have been closed while the socket was being admitted
+	// (middlewares can take long): onClose did not see this socket then.
+	c.closedMu.Lock()
+	closed, reason := c.closed, c.closeReason
+	c.closedMu.Unlock()
+	if closed {
+		c.sockets.removeByID(socket.ID())
+		socket.onClose(reason)
+	}
 }
 
 func (c *serverConn) connectError(message any, nsp string) {
@@ -243,6 +257,9 @@ func (c *serverConn) onClose(reason Reason, err error) {
 	// so we use sync.Once to avoid running onClose more than once.
 	c.closeOnce.Do(func() {
 		vhook.Event("conn.onclose", "c", c, "reason", string(reason))
+		c.closedMu.Lock()
+		c.closed, c.closeReason = true, reason
+		c.closedMu.Unlock()
 		sockets := c.sockets.getAndRemoveAll()
 		for _, socket := range sockets {
 			socket.onClose(reason)
